@@ -22,12 +22,13 @@ def plan(tier, seed):
 
 
 def thresholds(tier):
-  t = {"designs": 150, "ordered_pairs_checked": 3000, "discriminating_stale_read_comparisons": 1000, "passes_checked": 5000,
+  t = {"designs": 150, "constraint_orders_checked_after_replacement": 500, "inverted_pair_values_checked": 60, "ordered_pairs_checked": 3000, "discriminating_stale_read_comparisons": 1000, "passes_checked": 5000,
        "designs_with_pairs": 100, "rejections_checked": 16, "rejections_beside_a_legal_loop": 40, "opened_cycle_controls_accepted": 16, "greenlet_orderings_checked": 2000, "greenlet_designs": 60, "explicit_constraints_checked": 2000, "method_orderings_checked": 1500, "method_designs_with_required_orders": 80}
   if tier == "thorough":
     t = {k: v * 15 for k, v in t.items()}
     t["rejections_checked"] = 100          # the rejection streams have a fixed size per shard
     t["rejections_beside_a_legal_loop"] = 40; t["opened_cycle_controls_accepted"] = 16
+    t["constraint_orders_checked_after_replacement"] = 500; t["inverted_pair_values_checked"] = 60
   return t
 
 
@@ -136,6 +137,109 @@ def check_rejection_beside_loop(sh, rng):
             return
     finally:
       G.unload(mod)
+
+
+REPL_SRC = """
+from pymtl3 import *
+LOG = []
+class Stage(Component):
+  def construct(s, k=1):
+    s.in_ = InPort(8); s.out = OutPort(8); s.aux = OutPort(8)
+    @update
+    def up_stage():
+      LOG.append('up_stage')
+      s.out @= s.in_ + k
+    @update
+    def up_aux():
+      LOG.append('up_aux')
+      s.aux @= s.in_ ^ k
+class Mid(Component):
+  def construct(s):
+    s.in_ = InPort(8); s.snap = OutPort(8); s.out = OutPort(8)
+    s.stage = %(child)s
+    %(stage)s.in_ //= s.in_
+    @update
+    def up_sample():
+      LOG.append('up_sample')
+      s.snap @= %(stage)s.out
+    @update
+    def up_first():
+      LOG.append('up_first')
+      s.out @= s.in_
+    s.add_constraints( %(cons)s )
+class ReplTop(Component):
+  def construct(s):
+    s.in_ = InPort(8); s.snap = OutPort(8)
+    s.mid = Mid()
+    s.mid.in_ //= s.in_
+    s.snap //= s.mid.snap
+    @update
+    def up_top():
+      LOG.append('up_top')
+    %(topcons)s
+"""
+
+
+def check_constraints_after_replace(sh, rng):
+  """explicit constraints a parent (or grand-parent) declares on a block / port of a child must still be honoured after the child
+  was replaced (replace_component with a class, replace_component_with_obj with an object): the same orders as in the design that
+  was never touched, in every pass group; U(parent block) < WR(child.out) inverts the implicit writer-before-reader pair, so the
+  sampled value tells the two orders apart as well"""
+  lst = rng.random() < 0.4
+  stage = "s.stage[1]" if lst else "s.stage"
+  child = "[Stage() for _ in range(2)]" if lst else "Stage()"
+  pool = [("U(up_sample) < WR(%s.out)" % stage, ("up_sample", "up_stage")),
+          ("U(up_first) < U(%s.get_update_block('up_stage'))" % stage, ("up_first", "up_stage")),
+          ("U(%s.get_update_block('up_aux')) < U(up_first)" % stage, ("up_aux", "up_first"))]
+  picked = rng.sample(pool, rng.randrange(1, 4))
+  topcons, topreq = "pass", None
+  if rng.random() < 0.5:
+    tstage = stage.replace("s.", "s.mid.", 1)
+    if rng.random() < 0.5: topcons, topreq = f"s.add_constraints( U(up_top) < U({tstage}.get_update_block('up_stage')) )", ("up_top", "up_stage")
+    else: topcons, topreq = f"s.add_constraints( U({tstage}.get_update_block('up_aux')) < U(up_top) )", ("up_aux", "up_top")
+  src = REPL_SRC % {"child": child, "stage": stage, "cons": ", ".join(c for c, _ in picked), "topcons": topcons}
+  reqs = [r for _, r in picked] + ([topreq] if topreq else [])
+  inverted = any(r == ("up_sample", "up_stage") for r in reqs)
+  mod = G.load_source(src, "c02repl")
+  try:
+    for how in ("untouched", "class", "obj"):
+      for mode in PASS_MODES:
+        top = mod.ReplTop()
+        top.elaborate()
+        k = 1
+        if how != "untouched":
+          old = top.mid.stage[1] if lst else top.mid.stage
+          if how == "class": top.replace_component(old, mod.Stage)          # constructed with the arguments of the old one
+          else: k = rng.randrange(2, 9); top.replace_component_with_obj(old, mod.Stage(k))
+          # the other element of the list keeps k = 1
+        try:
+          simmon.apply_mode(top, mode, rng)
+        except Exception as e:
+          sh.violation("design-with-parent-constraints-on-a-child-not-simulable", {"how": how, "mode": mode, "error": repr(e)[:300], "source": src})
+          return
+        for v in (10, 77):
+          top.in_ @= v; mod.LOG.clear()
+          top.sim_eval_combinational()
+          seen = list(mod.LOG)
+          sh.count("constraint_orders_checked_after_replacement" if how != "untouched" else "constraint_orders_checked_untouched", len(reqs))
+          for (a, b) in reqs:
+            # with a list of two stages the log holds the block names of both; the constraint names element 1: compare LAST a
+            # with FIRST b only when the names are unique, otherwise use the sampled value below
+            if seen.count(a) == 1 and seen.count(b) == 1 and not seen.index(a) < seen.index(b):
+              sh.violation("explicit-constraint-on-child-not-honoured" + ("-after-replacement" if how != "untouched" else ""),
+                           {"how": how, "mode": mode, "required": f"{a} before {b}", "executed": seen, "source": src})
+              return
+        if inverted:
+          # up_sample runs before up_stage: it samples the value of the PREVIOUS evaluation
+          top.in_ @= 3; top.sim_eval_combinational()
+          top.in_ @= 200; top.sim_eval_combinational()
+          sh.count("inverted_pair_values_checked")
+          if int(top.snap) != (3 + k) & 0xff:
+            sh.violation("inverted-writer-reader-pair-sampled-the-new-value" + ("-after-replacement" if how != "untouched" else ""),
+                         {"how": how, "mode": mode, "snap": int(top.snap), "expected_old_value": (3 + k) & 0xff, "source": src})
+            return
+  finally:
+    G.unload(mod)
 
 
 CHAIN_SRC = '''
@@ -450,3 +554,4 @@ def run_shard(sh):
   for _ in range(2):
     check_rejection(sh, rng)
     check_chained(sh, rng)
+    check_constraints_after_replace(sh, rng)
